@@ -7,6 +7,16 @@ import bisect
 from .algebra import Undecided
 
 
+def _div(a, b):
+    """numpy's true division of array elements: x/0 is +-inf (nan for 0/0) with a warning, not an exception"""
+    try:
+        return a / b
+    except ZeroDivisionError:
+        if a != a or a == 0:
+            return float("nan")
+        return float("inf") if a > 0 else float("-inf")
+
+
 def _is_seq(x):
     return isinstance(x, (list, tuple, NumArr)) or getattr(x, "_abs_native", False) and hasattr(x, "__iter__")
 
@@ -204,26 +214,10 @@ class NumArr:
 
     # -------------------------------------------------------------- arithmetic
     def _bin(self, o, fn):
-        def one(a, b):
-            if isinstance(a, NumArr):
-                return a._bin(b, fn)
-            if isinstance(b, NumArr):
-                return b._bin(a, lambda y, x: fn(x, y))
-            return fn(a, b)
-        if _is_seq(o):
-            o = list(o)
-            if self.ndim == 2 and o and not _is_seq(o[0]):
-                # (n, m) op (m,) : broadcast along rows
-                return NumArr([r._bin(o, fn) for r in self.data])
-            if len(o) != len(self.data):
-                if len(o) == 1:
-                    o = o * len(self.data)
-                elif len(self.data) == 1:
-                    return NumArr([one(self.data[0], b) for b in o])
-                else:
-                    raise Undecided("operands could not be broadcast together")
-            return NumArr([one(a, b) for a, b in zip(self.data, o)])
-        return NumArr([one(a, o) for a in self.data])
+        """numpy broadcasting: scalars, (n,), (n,1), (1,n) and (m,n) operands; (n,) with (n,1) gives (n,n)"""
+        if _is_seq(o) and not isinstance(o, NumArr):
+            o = NumArr(list(o))
+        return emap(fn, self, o)
 
     def _inplace(self, o, fn):
         r = self._bin(o, fn)
@@ -235,8 +229,8 @@ class NumArr:
     def __iadd__(self, o): return self._inplace(o, lambda a, b: a + b)
     def __isub__(self, o): return self._inplace(o, lambda a, b: a - b)
     def __imul__(self, o): return self._inplace(o, lambda a, b: a * b)
-    def __itruediv__(self, o): return self._inplace(o, lambda a, b: a / b)
-    def __rtruediv__(self, o): return self._bin(o, lambda a, b: b / a)
+    def __itruediv__(self, o): return self._inplace(o, _div)
+    def __rtruediv__(self, o): return self._bin(o, lambda a, b: _div(b, a))
     def __pow__(self, o): return self._bin(o, lambda a, b: a ** b)
     def __rpow__(self, o): return self._bin(o, lambda a, b: b ** a)
     def __abs__(self): return NumArr([abs(a) for a in self.data])
@@ -247,7 +241,7 @@ class NumArr:
     def __rsub__(self, o): return self._bin(o, lambda a, b: b - a)
     def __mul__(self, o): return self._bin(o, lambda a, b: a * b)
     __rmul__ = __mul__
-    def __truediv__(self, o): return self._bin(o, lambda a, b: a / b)
+    def __truediv__(self, o): return self._bin(o, _div)
     def __neg__(self): return NumArr([-a for a in self.data])
     def __eq__(self, o): return self._bin(o, lambda a, b: a == b)
     def __ne__(self, o): return self._bin(o, lambda a, b: a != b)
@@ -260,8 +254,14 @@ class NumArr:
     def __invert__(self): return NumArr([not a for a in self.data])
     __hash__ = None
 
-    def any(self): return any(bool(x) for x in self.data)
-    def all(self): return all(bool(x) for x in self.data)
+    def any(self, *a, **k): return any(bool(x) for x in self.ravel().data)
+    def all(self, *a, **k): return all(bool(x) for x in self.ravel().data)
+    def __bool__(self):
+        if self.size == 0:
+            return False
+        if self.size == 1:
+            return bool(self.ravel().data[0])
+        raise ValueError("The truth value of an array with more than one element is ambiguous")
     def sum(self, axis=None):
         if self.ndim == 2:
             if axis is None:
@@ -403,6 +403,107 @@ def _mean(a, axis=None):
     return tot / n
 
 
+def emap(fn, *xs):
+    """element-wise application with numpy broadcasting of scalars, (n,), (n,1)/(1,n) and (m,n) operands"""
+    arrs = [x for x in xs if isinstance(x, NumArr)]
+    if not arrs:
+        return fn(*xs)
+    if any(a.ndim == 2 for a in arrs):
+        rows = max(a.shape[0] if a.ndim == 2 else 1 for a in arrs)
+        cols = max(a.shape[1] if a.ndim == 2 else a.shape[0] for a in arrs)
+
+        def at(x, i, j):
+            if not isinstance(x, NumArr):
+                return x
+            if x.ndim == 1:
+                if x.shape[0] not in (1, cols):
+                    raise ValueError("operands could not be broadcast together")
+                return x.data[j if x.shape[0] > 1 else 0]
+            r, c = x.shape
+            if r not in (1, rows) or c not in (1, cols):
+                raise ValueError("operands could not be broadcast together")
+            return x.data[i if r > 1 else 0].data[j if c > 1 else 0]
+        return NumArr([[fn(*[at(x, i, j) for x in xs]) for j in range(cols)] for i in range(rows)])
+    n = max(a.shape[0] for a in arrs)
+    if any(a.shape[0] not in (1, n) for a in arrs):
+        raise ValueError("operands could not be broadcast together")
+    return NumArr([fn(*[(x.data[i if x.shape[0] > 1 else 0] if isinstance(x, NumArr) else x) for x in xs]) for i in range(n)])
+
+
+def _math_summaries():
+    import math
+    inf, nan = float("inf"), float("nan")
+
+    def log(v):
+        return math.log(v) if v > 0 else (-inf if v == 0 else nan)
+
+    def exp(v):
+        try:
+            return math.exp(v)
+        except OverflowError:
+            return inf
+
+    def sqrt(v):
+        return math.sqrt(v) if v >= 0 else nan
+
+    def lgamma(v):
+        return math.lgamma(v) if v > 0 or v != int(v) else inf
+
+    def recip(v):
+        # integer arrays keep their dtype: C integer division truncates (1/2 -> 0)
+        if isinstance(v, int) and not isinstance(v, bool):
+            return int(1 / v) if v != 0 else 0
+        return 1.0 / v if v != 0 else inf
+
+    def power(a, b):
+        return a ** b
+    un = lambda f: (lambda x, *a, **k: emap(f, x))
+    out = {"np.log": un(log), "np.exp": un(exp), "np.sqrt": un(sqrt), "np.log1p": un(lambda v: log(1 + v)), "np.expm1": un(lambda v: exp(v) - 1),
+           "np.reciprocal": un(recip), "np.square": un(lambda v: v * v), "np.negative": un(lambda v: -v), "np.float_power": lambda a, b: emap(lambda x, y: float(x) ** y, a, b),
+           "np.power": lambda a, b: emap(power, a, b), "np.divide": lambda a, b: emap(lambda x, y: x / y, a, b), "np.true_divide": lambda a, b: emap(lambda x, y: x / y, a, b),
+           "np.subtract": lambda a, b: emap(lambda x, y: x - y, a, b),
+           "np.mod": lambda a, b: emap(lambda x, y: x % y, a, b), "np.remainder": lambda a, b: emap(lambda x, y: x % y, a, b),
+           "np.floor": un(lambda v: float(math.floor(v))), "np.ceil": un(lambda v: float(math.ceil(v))), "np.round": un(lambda v: float(round(v))),
+           "np.rint": un(lambda v: float(round(v))), "np.isnan": un(lambda v: v != v), "np.sign": un(lambda v: (v > 0) - (v < 0)),
+           "np.pi": math.pi, "np.e": math.e, "math.pi": math.pi, "math.log": log, "math.exp": exp, "math.sqrt": sqrt, "math.lgamma": lgamma}
+    for nm in ("gammaln", "sc.gammaln", "scipy.special.gammaln", "special.gammaln", "sp.gammaln", "sps.gammaln"):
+        out[nm] = un(lgamma)
+    return out
+
+
+def interp(x, xp, fp, left=None, right=None, **k):
+    """numpy.interp: piecewise linear through (xp, fp), clamped to the end values outside"""
+    xs, ys = list(xp), list(fp)
+    if len(xs) != len(ys):
+        raise ValueError("fp and xp are not of the same length")
+
+    def one(v):
+        if v <= xs[0]:
+            return float(ys[0]) if (left is None or v == xs[0]) else left
+        if v >= xs[-1]:
+            return float(ys[-1]) if (right is None or v == xs[-1]) else right
+        j = bisect.bisect_right(xs, v) - 1
+        w = (v - xs[j]) / (xs[j + 1] - xs[j])
+        return ys[j] + w * (ys[j + 1] - ys[j])
+    return NumArr([one(v) for v in x]) if _is_seq(x) else one(x)
+
+
+def _arr_equal(a, b, tol):
+    a = a if isinstance(a, NumArr) else NumArr(list(a)) if _is_seq(a) else NumArr([a])
+    b = b if isinstance(b, NumArr) else NumArr(list(b)) if _is_seq(b) else NumArr([b])
+    if a.shape != b.shape:
+        if tol == 0.0:
+            return False
+        try:
+            return bool(emap(lambda x, y: abs(x - y) <= tol[1] + tol[0] * abs(y), a, b).all())
+        except ValueError:
+            return False
+    fa, fb = a.ravel().data, b.ravel().data
+    if tol == 0.0:
+        return all(x == y for x, y in zip(fa, fb))
+    return all(abs(x - y) <= tol[1] + tol[0] * abs(y) for x, y in zip(fa, fb))
+
+
 def num_summaries():
     def arr(x, *a, **k):
         if isinstance(x, (list, tuple)) and x and all(isinstance(m, NumArr) and m.ndim == 2 for m in x):
@@ -446,7 +547,7 @@ def num_summaries():
         "np.asanyarray": lambda x, *a, **k: (x if isinstance(x, NumArr) else arr(x, *a, **k)), "np.copy": arr, "np.searchsorted": searchsorted, "np.where": where,
         "np.minimum": pair(min), "np.maximum": pair(max), "np.clip": clip,
         "np.any": lambda a: any(bool(x) for x in a), "np.all": lambda a: all(bool(x) for x in a),
-        "np.zeros": lambda shape=None, dtype=None, *a, **k: _alloc(shape, 0, "int" if _dtype_name(dtype) == "int" else None),
+        "np.zeros": lambda shape=None, dtype=None, *a, **k: _alloc(shape, 0 if _dtype_name(dtype) == "int" else False if _dtype_name(dtype) == "bool" else 0.0, "int" if _dtype_name(dtype) == "int" else None),
         "np.histogram": histogram,
         "np.arange": lambda *a: NumArr(list(range(*a))), "np.isin": lambda a, b: NumArr([x in list(b) for x in a]),
         "np.diff": lambda a: NumArr([y - x for x, y in zip(list(a)[:-1], list(a)[1:])]),
@@ -461,9 +562,13 @@ def num_summaries():
         "np.hstack": lambda seq: NumArr([x for s_ in seq for x in (s_ if _is_seq(s_) else [s_])]),
         "np.union1d": lambda a, b: NumArr(sorted(set((list(NumArr(a).ravel()) if _is_seq(a) else [a]) + (list(NumArr(b).ravel()) if _is_seq(b) else [b])))),
         "np.atleast_1d": lambda a: a if isinstance(a, NumArr) else NumArr(list(a) if _is_seq(a) else [a]),
-        "np.ones": lambda n, *a, **k: NumArr([1] * n),
+        "np.ones": lambda shape=None, dtype=None, *a, **k: _alloc(shape, 1 if _dtype_name(dtype) == "int" else True if _dtype_name(dtype) == "bool" else 1.0, "int" if _dtype_name(dtype) == "int" else None),
         "np.full": lambda n, v, *a, **k: NumArr([v] * n) if isinstance(n, int) else (NumArr([v] * n[0]) if len(n) == 1 else NumArr([[v] * n[1] for _ in range(n[0])])),
-        "np.empty": lambda shape=None, dtype=None, *a, **k: _alloc(shape, 0, "int" if _dtype_name(dtype) == "int" else None),
+        "np.empty": lambda shape=None, dtype=None, *a, **k: _alloc(shape, 0 if _dtype_name(dtype) == "int" else 0.0, "int" if _dtype_name(dtype) == "int" else None),
+        **_math_summaries(),
+        "np.array_equal": lambda a, b, **k: _arr_equal(a, b, 0.0), "np.allclose": lambda a, b, rtol=1e-05, atol=1e-08, **k: _arr_equal(a, b, (rtol, atol)),
+        "np.array_equiv": lambda a, b, **k: _arr_equal(a, b, 0.0),
+        "np.interp": interp,
         "np.inf": float("inf"), "np.dot": dot, "np.matmul": dot,
         "np.dstack": lambda seq: Stack3(list(seq), 2),
         "np.mean": lambda a, axis=None, **k: a.mean(axis) if isinstance(a, Stack3) else (Stack3(list(a), 0).mean(axis) if (isinstance(a, (list, tuple)) and a and isinstance(a[0], NumArr) and a[0].ndim == 2) else _mean(a, axis)),
